@@ -16,6 +16,26 @@ pub fn check_incoming_htlc_cltv(
 	)
 }
 
+/// `crate::ln::onion_payment::check_blinded_forward` (private) with empty features:
+/// `(amt_to_forward, outgoing_cltv_value)` a node inside a blinded path derives from its own
+/// `payment_relay` / `payment_constraints`, `None` = reject.
+pub fn check_blinded_forward(
+	inbound_amt_msat: u64, inbound_cltv_expiry: u32, fee_base_msat: u32,
+	fee_proportional_millionths: u32, cltv_expiry_delta: u16, htlc_minimum_msat: u64,
+	max_cltv_expiry: u32,
+) -> Option<(u64, u32)> {
+	crate::ln::onion_payment::verif_check_blinded_forward(
+		inbound_amt_msat,
+		inbound_cltv_expiry,
+		fee_base_msat,
+		fee_proportional_millionths,
+		cltv_expiry_delta,
+		htlc_minimum_msat,
+		max_cltv_expiry,
+	)
+	.ok()
+}
+
 /// Crate-private timing constants (the library's stated bounds), for the harness oracles.
 pub mod consts {
 	#![allow(missing_docs)]
